@@ -199,6 +199,9 @@ def _run_once(prog, at: int, exc, record: bool = False) -> Dict[str, Any]:
     # whatever happened, the caller's Context object is as it was (layers pushed by the library are gone, also when the
     # exception crossed {% provide %} / component / slot / fill tags)
     res["ctx_restored"] = P._ctx_fingerprint(ctx)[:2] == fp_before
+    if record:
+        # (first thing after the run: a later render of the page itself could repair what the failed one left behind)
+        res["canary"] = _canary()
     if res["err"] and at > 0:
         # "every later render behaves as if the failed one had never happened" - also a later render that is handed the
         # SAME Context object (a view that catches the error and renders a fallback with its context)
@@ -213,8 +216,6 @@ def _run_once(prog, at: int, exc, record: bool = False) -> Dict[str, Any]:
             del e2
         PLAN.update(exc=None, log=[])
     del ctx, marker, ctxd
-    if record:
-        res["canary"] = _canary()
     gc.collect()
     res["alive"] = sum(1 for r in refs if r() is not None)
     res["residue"] = _residue()
